@@ -81,6 +81,12 @@ type emitter struct {
 	//    result in an invalid behavior.
 	alreadyInitializedVars map[*ast.Identifier]int16
 
+	// alreadyEmittedVarDecls reports if the initialization of the variables
+	// of a package variable declaration has already been emitted. This avoids
+	// initializing them again, evaluating again the initialization
+	// expressions, when the package is imported by two different packages.
+	alreadyEmittedVarDecls map[*ast.Var]bool
+
 	// alreadyInitializedTemplatePkgs keeps track of the template packages for
 	// which the initialization code has already been emitted.
 	alreadyInitializedTemplatePkgs map[string]bool
@@ -96,6 +102,7 @@ func newEmitter(typeInfos map[ast.Node]*typeInfo, formatTypes map[ast.Format]ref
 		types:                          types.NewTypes(), // TODO: this is wrong: the instance should be taken from the type checker.
 		alreadyEmittedFuncs:            map[*ast.Func]*runtime.Function{},
 		alreadyInitializedVars:         map[*ast.Identifier]int16{},
+		alreadyEmittedVarDecls:         map[*ast.Var]bool{},
 		alreadyInitializedTemplatePkgs: map[string]bool{},
 	}
 	em.fnStore = newFunctionStore(em)
@@ -139,7 +146,7 @@ func (em *emitter) emitPackage(pkg *ast.Package, extendingFile bool, path string
 			// Do not add duplicated init functions.
 			for _, pkgInit := range pkgInits {
 				if !slices.Contains(inits, pkgInit) {
-					inits = append(inits, pkgInits...)
+					inits = append(inits, pkgInit)
 				}
 			}
 		}
@@ -148,8 +155,12 @@ func (em *emitter) emitPackage(pkg *ast.Package, extendingFile bool, path string
 	// Package level functions.
 	functions := map[string]*runtime.Function{}
 
+	// importedInits is the number of the init functions of the imported
+	// packages.
+	importedInits := len(inits)
+
 	// initToBuild is the index of the next "init" function to build.
-	initToBuild := len(inits)
+	initToBuild := importedInits
 
 	if extendingFile {
 		// The function declarations have already been added to the list of
@@ -190,6 +201,15 @@ func (em *emitter) emitPackage(pkg *ast.Package, extendingFile bool, path string
 	var initVarsFb *functionBuilder
 	for _, dec := range pkg.Declarations {
 		if n, ok := dec.(*ast.Var); ok {
+			if em.alreadyEmittedVarDecls[n] {
+				for _, v := range n.Lhs {
+					if index, ok := em.alreadyInitializedVars[v]; ok {
+						vars[v.Name] = index
+					}
+				}
+				continue
+			}
+			em.alreadyEmittedVarDecls[n] = true
 			// If the package has some variable declarations, a special "init"
 			// function must be created to initialize them. "$initvars" is
 			// used because is not a valid Go identifier, so there's no risk
@@ -266,14 +286,19 @@ func (em *emitter) emitPackage(pkg *ast.Package, extendingFile bool, path string
 			// must be called before executing every other statement of the main
 			// function.
 			if n.Ident.Name == "main" {
-				// First: initialize the package variables.
+				// First: initialize the imported packages.
+				for _, initFunc := range inits[:importedInits] {
+					index := em.fb.addFunction(initFunc)
+					em.fb.emitCallFunc(index, runtime.StackShift{}, nil)
+				}
+				// Second: initialize the package variables.
 				if initVarsFn != nil {
 					iv, _ := em.fnStore.availableScriggoFn(em.pkg, "$initvars")
 					index := em.fb.addFunction(iv) // TODO: check addFunction
 					em.fb.emitCallFunc(index, runtime.StackShift{}, nil)
 				}
-				// Second: call all init functions, in order.
-				for _, initFunc := range inits {
+				// Third: call all init functions, in order.
+				for _, initFunc := range inits[importedInits:] {
 					index := em.fb.addFunction(initFunc)
 					em.fb.emitCallFunc(index, runtime.StackShift{}, nil)
 				}
@@ -292,9 +317,11 @@ func (em *emitter) emitPackage(pkg *ast.Package, extendingFile bool, path string
 	}
 
 	// If this package is imported, initFuncs must contain initVarsFn, that is
-	// processed as a generic "init" function.
+	// processed as a generic "init" function. The package variables are
+	// initialized after the imported packages and before calling the init
+	// functions of the package.
 	if initVarsFn != nil {
-		inits = append(inits, initVarsFn)
+		inits = slices.Insert(inits, importedInits, initVarsFn)
 	}
 
 	return functions, vars, inits
